@@ -21,13 +21,15 @@ type axis struct {
 }
 
 func (a *axis) getIndex(v float64) int {
-	index := int(math.Floor((v-a.start)/a.size)) + 1
+	// Clamp before converting: the conversion of a float which is too large for an
+	// int is not defined, on amd64 it yields a negative value.
+	index := math.Floor((v-a.start)/a.size) + 1
 	if index < 0 {
-		index = 0
-	} else if index >= a.bins {
-		index = a.bins - 1
+		return 0
+	} else if index >= float64(a.bins) {
+		return a.bins - 1
 	}
-	return index
+	return int(index)
 }
 
 type bin struct {
